@@ -258,6 +258,15 @@ def discharge(site, ev):
                 if r is not None and r[0] >= tr[0] and r[1] <= tr[1]:
                     return _ok(site, 'interval: %s %s %s = %s fits %s' % (a, op, b, r, ty))
                 if op == 'Sub' and tr[0] == 0:
+                    # remainder bound: b - (a % b) with the same b cannot underflow (a % b < b)
+                    rd = _def_rv(fn, b_op)
+                    if rd is not None and rd[0] == 'bin' and rd[1] == 'Rem' and ev.same(rd[3], a_op):
+                        return _ok(site, 'remainder bound: x % b < b, so b - x % b cannot underflow')
+                    # x - x / c
+                    if rd is not None and rd[0] == 'bin' and rd[1] == 'Div' and ev.same(rd[2], a_op):
+                        dv = ev.val(rd[3], bb)
+                        if dv is not None and dv[0] >= 1 and a[0] >= 0:
+                            return _ok(site, 'x - x / c with c >= 1 cannot underflow')
                     rel = ev.known_rel(a_op, b_op, bb)
                     if rel & {'Ge', 'Gt', 'Eq'}:
                         return _ok(site, 'guarded subtraction: dominating guard establishes lhs %s rhs' % sorted(rel))
@@ -321,6 +330,12 @@ def discharge(site, ev):
             if 'Lt' in rel:
                 return _ok(site, 'guarded index: dominating guard index < len')
             return
+        if k == 'alloc':
+            if site.ops and site.ops[0] is not None:
+                v = ev.val(site.ops[0], bb)
+                if v is not None and v[0] >= 0 and v[1] <= 65536:
+                    return _ok(site, 'interval: allocation size in %s' % (v,))
+            return
         if k.startswith('panic('):
             ce = _controlling_edge(fn, bb)
             if ce is None:
@@ -352,6 +367,19 @@ def discharge(site, ev):
             return
     except RecursionError:
         return
+
+
+def _def_rv(fn, op, depth=4):
+    """rvalue that defines a temporary operand (copies followed)"""
+    if op[0] not in ('c', 'm') or len(op[1]) != 1 or depth <= 0:
+        return None
+    sd = fn.single_def(op[1][0])
+    if sd is None or sd[1] == 'term':
+        return None
+    rv = sd[2]
+    if rv[0] == 'use':
+        return _def_rv(fn, rv[1], depth - 1)
+    return rv
 
 
 def _cmp_impossible(opn, a, b):
